@@ -740,6 +740,56 @@ def r12_lattice_layout(repo: Repo, rep):
         rep.undecided(R, "src/torchphysics/problem/domains", "-", "meshgrid lattices", "none found")
 
 
+def r13_operand_choice(repo: Repo, rep):
+    R = rep.rule("R-C11-13", "one-point boundary proposals of a Boolean domain pick the operand boundary at random (in proportion to the measures), not in a fixed order; and the "
+                 "fixed-n union sampler selects between its two candidate samples by the volume-ratio draw alone", floor=2,
+                 why="always proposing on the first operand's boundary first puts every accepted point there (0 % on the second square of a disjoint union); replacing a b-candidate that "
+                     "lies in a by the a-candidate raises P(a) from vol(a)/vol(a ∪ b) to q + (1 - q) p (74.6 % instead of 66.7 % for two half-overlapping squares)")
+    from ..util import deref, single_defs
+    h = repo.module("problem.domains.domainoperations.sampler_helper")
+    fi = h.functions.get("_random_boundary_points_if_n_eq_1")
+    if fi is None:
+        raise AnalysisError("_random_boundary_points_if_n_eq_1 vanished")
+    rep.saw(fi)
+    # the index that selects the operand boundary of a proposal
+    sel = None
+    for c in ast.walk(fi.node):
+        if isinstance(c, ast.Call) and isinstance(c.func, ast.Attribute) and c.func.attr == "sample_random_uniform" and isinstance(c.func.value, ast.Subscript) and isinstance(c.func.value.slice, ast.Name):
+            sel = c.func.value.slice.id
+    if sel is None:
+        rep.undecided(R, fi.site(), fi.fq, "proposals drawn from a list of the two operand boundaries indexed by a selector", "idiom not recognised")
+    else:
+        binds = [a.value for a in ast.walk(fi.node) if isinstance(a, ast.Assign) and any(isinstance(t, ast.Name) and t.id == sel for t in a.targets)]
+        random_src = any(isinstance(x, ast.Call) and (attr_chain(x.func) or "").split(".")[-1] in ("rand", "rand_like", "randint", "bernoulli", "multinomial", "random", "choice") for b in binds for x in ast.walk(b))
+        fixed = all(isinstance(b, ast.Constant) or (isinstance(b, ast.UnaryOp) and isinstance(b.op, ast.Not) and dump(b.operand) == sel) for b in binds)
+        if random_src:
+            rep.ok(R, fi.site(), fi.fq, "operand boundary chosen at random", f"{sel} := {[dump(b)[:40] for b in binds]}")
+        elif fixed and binds:
+            rep.violation(R, fi.site(), fi.fq, "the operand boundary of a proposal is chosen at random, in proportion to the boundary measures",
+                          f"`{sel}` starts at {dump(binds[0])} and alternates: the first operand is always tried first", f"fixed alternation of {sel}")
+        else:
+            rep.undecided(R, fi.site(), fi.fq, "selector recognisable as random or as a fixed alternation", f"{[dump(b)[:40] for b in binds]}")
+    ci = repo.cls(f"{DOM}.domainoperations.union.UnionDomain")
+    f2 = ci.methods.get("_sample_random_with_n")
+    if f2 is None:
+        raise AnalysisError("UnionDomain._sample_random_with_n vanished")
+    rep.saw(f2)
+    tmp = single_defs(f2.node)
+    wh = [c for c in ast.walk(f2.node) if isinstance(c, ast.Call) and attr_chain(c.func) == "torch.where" and len(c.args) == 3]
+    if not wh:
+        rep.undecided(R, f2.site(), f2.fq, "row-wise selection torch.where(mask, a-sample, b-sample)", "not found")
+        return
+    for c in wh:
+        m = c.args[0]
+        # follow re-bound selector names through every assignment
+        texts = [m]
+        if isinstance(m, ast.Name):
+            texts = [a.value for a in ast.walk(f2.node) if isinstance(a, ast.Assign) and any(isinstance(t, ast.Name) and t.id == m.id for t in a.targets)]
+        member = any(isinstance(x, ast.Call) and isinstance(x.func, ast.Attribute) and x.func.attr == "_contains" for t in texts for x in ast.walk(deref(t, tmp)))
+        rep.check(R, not member, f2.site(c), f2.fq, "the selection mask is the volume-ratio draw alone (a b-candidate inside a is rejected and redrawn, not swapped for the a-candidate)",
+                  "the mask also holds where the b-candidate lies in a: those rows take the a-candidate", "membership of the b-candidate ORed into the selection")
+
+
 def r10_weighted_second_factor(repo: Repo, rep):
     R = rep.rule("R-C11-10", "dependent product: every value of the second factor enters through the volume-weighted acceptance (_sample_uniform_b_points), also the ones that fill a shortfall", floor=1,
                  why="values drawn directly from the second factor are uniform in b instead of proportional to the measure of the slice A(b)")
@@ -771,6 +821,7 @@ def run(repo: Repo, rep):
     r9_boundary_grid_shares(repo, rep)
     r11_inside_grid_request(repo, rep)
     r12_lattice_layout(repo, rep)
+    r13_operand_choice(repo, rep)
     from .c10 import r1_r2_formulas  # mixture weights and the acceptance of dependent products use the measures: a signed / wrong volume shifts the point density between members
     r1_r2_formulas(repo, rep)
     r6b_dependency_flags(repo, rep)
